@@ -31,6 +31,8 @@ type Solver struct {
 	kind     string
 	lastErr  string
 	timeoutS int
+	record   bool
+	lines    [][]string
 }
 
 func NewSolver(kind string, timeoutMs int) *Solver {
@@ -80,7 +82,23 @@ func (s *Solver) Close() {
 	s.cmd.Wait()
 }
 
+// Transcript returns the commands that make up the current assertion stack (for cross-checking a query
+// with another solver).
+func (s *Solver) Transcript() []string {
+	var out []string
+	for _, l := range s.lines {
+		out = append(out, l...)
+	}
+	return out
+}
+
 func (s *Solver) send(line string) {
+	if s.record && !strings.HasPrefix(line, "(push") && !strings.HasPrefix(line, "(pop") && !strings.HasPrefix(line, "(check-sat") && !strings.HasPrefix(line, "(get-value") && !strings.HasPrefix(line, "(set-option") {
+		for len(s.lines) <= s.level {
+			s.lines = append(s.lines, nil)
+		}
+		s.lines[s.level] = append(s.lines[s.level], line)
+	}
 	s.in.WriteString(line)
 	s.in.WriteByte('\n')
 	if s.log != nil {
@@ -108,6 +126,9 @@ func (s *Solver) Pop() {
 	}
 	s.defs = s.defs[:s.level]
 	s.decls = s.decls[:s.level]
+	if len(s.lines) > s.level {
+		s.lines = s.lines[:s.level]
+	}
 	s.level--
 }
 
